@@ -131,7 +131,7 @@ std::string formatSI(int64_t s)
     snprintf(buf, sizeof(buf), "%.0fT", n/1e12);
   else if (s < 9995000000000000)
     snprintf(buf, sizeof(buf), "%.2fP", n/1e15);
-  else if (s < 99950000000000000)
+  else if (n < 99950000000000000.0)  // test what is printed: above 2^53 the conversion may round up
     snprintf(buf, sizeof(buf), "%.1fP", n/1e15);
   else if (s < 999500000000000000)
     snprintf(buf, sizeof(buf), "%.0fP", n/1e15);
